@@ -1,6 +1,7 @@
 package seams
 
 import (
+	"errors"
 	"fmt"
 	"math/big"
 	"os"
@@ -115,6 +116,14 @@ type YieldStore struct {
 	Ops map[string]int
 	// Mutations counts calls of state-changing operations (refused-request oracles).
 	Mutations int
+	// FailPermille[op] > 0 injects a storage error (the operation is not executed) with that
+	// probability: what a full disk or an I/O error looks like to the pool.  FailBudget bounds the
+	// number of injected errors per run.
+	FailPermille map[string]int
+	FailBudget   int
+	Failed       int
+	// FailDisarmed suspends injection (a scenario that only faults one kind of request).
+	FailDisarmed bool
 	// Trace, when set, receives every completed operation.
 	Trace func(OpRecord)
 	// After is called after every completed operation, before the post-yield.
@@ -130,6 +139,35 @@ func short(x string) string {
 		return x[:4] + ".." + x[len(x)-4:]
 	}
 	return x
+}
+
+// ErrInjected is the injected storage error.
+var ErrInjected = errors.New("store: injected I/O error")
+
+// SetDisarmed suspends or resumes injection.
+func (y *YieldStore) SetDisarmed(v bool) {
+	y.mu.Lock()
+	y.FailDisarmed = v
+	y.mu.Unlock()
+}
+
+// inject decides whether this operation fails with an injected storage error.
+func (y *YieldStore) inject(op string) bool {
+	y.mu.Lock()
+	rate := y.FailPermille[op]
+	room := y.Failed < y.FailBudget && !y.FailDisarmed
+	y.mu.Unlock()
+	if rate <= 0 || !room {
+		return false
+	}
+	if y.Sim.TaskChoose("store", "storefail."+op, 1000) < 1000-rate {
+		return false
+	}
+	y.mu.Lock()
+	y.Failed++
+	y.mu.Unlock()
+	y.Sim.Fault("store_error_" + op)
+	return true
 }
 
 func (y *YieldStore) pre(op, args string, mutating bool) {
@@ -164,6 +202,10 @@ func (y *YieldStore) MutationCount() int {
 func (y *YieldStore) CheckAndSaveNonce(ID string, nonce int64) error {
 	a := fmt.Sprintf("%s,%d", short(ID), nonce)
 	y.pre("CheckAndSaveNonce", a, false)
+	if y.inject("CheckAndSaveNonce") {
+		y.post("CheckAndSaveNonce", a, ErrInjected)
+		return ErrInjected
+	}
 	err := y.Inner.CheckAndSaveNonce(ID, nonce)
 	y.post("CheckAndSaveNonce", a, err)
 	return err
@@ -172,6 +214,10 @@ func (y *YieldStore) CheckAndSaveNonce(ID string, nonce int64) error {
 func (y *YieldStore) GetNode(id store.NodeID) (*store.Node, error) {
 	a := short(string(id))
 	y.pre("GetNode", a, false)
+	if y.inject("GetNode") {
+		y.post("GetNode", a, ErrInjected)
+		return nil, ErrInjected
+	}
 	n, err := y.Inner.GetNode(id)
 	y.post("GetNode", a, err)
 	return n, err
@@ -180,6 +226,10 @@ func (y *YieldStore) GetNode(id store.NodeID) (*store.Node, error) {
 func (y *YieldStore) SetNode(n store.Node) error {
 	a := short(string(n.ID))
 	y.pre("SetNode", a, true)
+	if y.inject("SetNode") {
+		y.post("SetNode", a, ErrInjected)
+		return ErrInjected
+	}
 	err := y.Inner.SetNode(n)
 	y.post("SetNode", a, err)
 	return err
@@ -239,6 +289,10 @@ func (y *YieldStore) sampleActiveHosts(kind string, limit int, first []store.Nod
 func (y *YieldStore) NodePeers(id store.NodeID) ([]store.Node, error) {
 	a := short(string(id))
 	y.pre("NodePeers", a, false)
+	if y.inject("NodePeers") {
+		y.post("NodePeers", a, ErrInjected)
+		return nil, ErrInjected
+	}
 	r, err := y.Inner.NodePeers(id)
 	sort.Slice(r, func(i, j int) bool { return r[i].ID < r[j].ID })
 	y.post("NodePeers", a, err)
@@ -248,6 +302,10 @@ func (y *YieldStore) NodePeers(id store.NodeID) ([]store.Node, error) {
 func (y *YieldStore) UpdateNodePeers(id store.NodeID, peers []string, block uint64) ([]store.NodeID, error) {
 	a := fmt.Sprintf("%s,%d peers", short(string(id)), len(peers))
 	y.pre("UpdateNodePeers", a, true)
+	if y.inject("UpdateNodePeers") {
+		y.post("UpdateNodePeers", a, ErrInjected)
+		return nil, ErrInjected
+	}
 	r, err := y.Inner.UpdateNodePeers(id, peers, block)
 	sort.Slice(r, func(i, j int) bool { return r[i] < r[j] })
 	y.post("UpdateNodePeers", a, err)
@@ -257,6 +315,10 @@ func (y *YieldStore) UpdateNodePeers(id store.NodeID, peers []string, block uint
 func (y *YieldStore) GetNodeBalance(id store.NodeID) (store.Balance, error) {
 	a := short(string(id))
 	y.pre("GetNodeBalance", a, false)
+	if y.inject("GetNodeBalance") {
+		y.post("GetNodeBalance", a, ErrInjected)
+		return store.Balance{}, ErrInjected
+	}
 	b, err := y.Inner.GetNodeBalance(id)
 	y.post("GetNodeBalance", a, err)
 	return b, err
@@ -265,6 +327,10 @@ func (y *YieldStore) GetNodeBalance(id store.NodeID) (store.Balance, error) {
 func (y *YieldStore) AddNodeBalance(id store.NodeID, credit *big.Int) error {
 	a := fmt.Sprintf("%s,%s", short(string(id)), credit)
 	y.pre("AddNodeBalance", a, true)
+	if y.inject("AddNodeBalance") {
+		y.post("AddNodeBalance", a, ErrInjected)
+		return ErrInjected
+	}
 	err := y.Inner.AddNodeBalance(id, credit)
 	y.post("AddNodeBalance", a, err)
 	return err
@@ -273,6 +339,10 @@ func (y *YieldStore) AddNodeBalance(id store.NodeID, credit *big.Int) error {
 func (y *YieldStore) GetAccountBalance(acc store.Account) (store.Balance, error) {
 	a := short(string(acc))
 	y.pre("GetAccountBalance", a, false)
+	if y.inject("GetAccountBalance") {
+		y.post("GetAccountBalance", a, ErrInjected)
+		return store.Balance{}, ErrInjected
+	}
 	b, err := y.Inner.GetAccountBalance(acc)
 	y.post("GetAccountBalance", a, err)
 	return b, err
@@ -281,6 +351,10 @@ func (y *YieldStore) GetAccountBalance(acc store.Account) (store.Balance, error)
 func (y *YieldStore) AddAccountBalance(acc store.Account, credit *big.Int) error {
 	a := fmt.Sprintf("%s,%s", short(string(acc)), credit)
 	y.pre("AddAccountBalance", a, true)
+	if y.inject("AddAccountBalance") {
+		y.post("AddAccountBalance", a, ErrInjected)
+		return ErrInjected
+	}
 	err := y.Inner.AddAccountBalance(acc, credit)
 	y.post("AddAccountBalance", a, err)
 	return err
@@ -289,6 +363,10 @@ func (y *YieldStore) AddAccountBalance(acc store.Account, credit *big.Int) error
 func (y *YieldStore) AddAccountNode(acc store.Account, id store.NodeID) error {
 	a := short(string(acc)) + "," + short(string(id))
 	y.pre("AddAccountNode", a, true)
+	if y.inject("AddAccountNode") {
+		y.post("AddAccountNode", a, ErrInjected)
+		return ErrInjected
+	}
 	err := y.Inner.AddAccountNode(acc, id)
 	y.post("AddAccountNode", a, err)
 	return err
